@@ -19,7 +19,7 @@ CLAIMS = {
         "(8/16/32/64 bit, r8-r15, ah/ch/dh/bh without REX), every synonym mnemonic and the no-operand instructions. Theorems: Sweep.c01_sweep (the "
         "whole family, about 51000 instances x option bytes {14,0}, on the model, decided by evaluation - native_decide), C01.nop_table_decodes "
         "(kernel-checked: every entry n of the regenerated NOP table is one nop of n bytes), C01.no_operand_lines (kernel evaluation of the text-level "
-        "pipeline), C01.letter_case_irrelevant (kernel-checked, EVERY line and option byte: the case of its letters does not change the result). Tie: "
+        "pipeline), C01.letter_case_irrelevant (kernel-checked, EVERY line and option byte: the case of its letters does not change the result), C01.regpair_fields (kernel-checked by evaluation in the kernel, no native_decide: for all four widths and EVERY encodable pair of general registers the REX prefix and ModRM byte that get_rex_prefix / get_reg compute name exactly those registers at that width). Tie: "
         "the same family on the C implementation under option bytes {14,0} (thorough: all 12): implementation bytes = model bytes "
         "(T2) and decode(bytes) = written instruction, length = offset advance; upper/mixed-case spellings give the same bytes; each line assembled "
         "a second time after NOP padding (chunk fitting re-assembles the record) gives the same instruction.",
@@ -76,7 +76,7 @@ CLAIMS = {
         "tuples of its register files (mm0-7, xmm0-15, ymm0-15, 32/64-bit general registers) and its memory forms: mandatory prefix, opcode map, "
         "VEX.L, W, vvvv and the inverted R/X/B bits are what a decoder needs to read the same operation, operands, operand size and vector length. "
         "Theorems: Sweep.c04_sweep (about 330000 instances on the model, by evaluation), C04.vex2_is_vex3 (kernel-checked: the 2-byte and 3-byte VEX "
-        "forms carry the same fields for all 256 second bytes). Tie: the family on the C implementation, decoded and compared; objdump cross-check.",
+        "forms carry the same fields for all 256 second bytes), C04.vex_prefix_fields (kernel-checked by evaluation in the kernel: for EVERY VEX slot value of the regenerated table, every REX state, vvvv and operand width the prefix assemble_VEX emits - C5 or C4, its choice - reads back with the inverted R/X/B, vvvv, L, pp, map and W the row asks for), C04.vecpair_fields and C01.regpair_fields (kernel-checked: REX.R/REX.B and ModRM name the two registers for every pair of mm/xmm/ymm and of general registers). Tie: the family on the C implementation, decoded and compared; objdump cross-check.",
    note="Sweep by evaluation (native_decide axiom). Vector forms AssemblyLine does not offer (e.g. vaddpd xmm) are skipped, not judged.",
    technique="Lean 4 reference decoder incl. VEX; exhaustive finite-domain theorem (native_decide); exhaustive differential run with decoding oracle",
    design="8/C04"),
@@ -90,7 +90,7 @@ CLAIMS = {
         "of the regenerated table - Lemmas.Branch.relKeys_classified puts each into the jmp/jcc, call/xbegin or jrcxz shape - EVERY d in "
         "-2^31..2^31-1, with and without short/long, every option byte: rel8, rel32 or rejection exactly as stated, displacement field = d's two's "
         "complement), and the same at the TEXT level (C05.rel_branch_text_dec / _neg_dec / _hex / _neg_hex: each of the 20 relative-branch mnemonics, "
-        "no keyword / short / long, four spellings with leading zeros, through filter, tokenizer and lookups - Lemmas.BranchText.branch_line). Register, memory and far-memory targets: the indirect forms of call, jmp, call far, jmp far over all 16 registers and the C02 address shapes (key bases and indices, stack-pointer swap shapes, every base-less scaled index) are part of the C05 family (sweep theorem on the model, the same lines on the C code with the decoding oracle).",
+        "no keyword / short / long, four spellings with leading zeros, through filter, tokenizer and lookups - Lemmas.BranchText.branch_line). Register, memory and far-memory targets: the indirect forms of call, jmp, call far, jmp far over all 16 registers and the C02 address shapes (key bases and indices, stack-pointer swap shapes, every base-less scaled index) are part of the C05 family (sweep theorem on the model, the same lines on the C code with the decoding oracle; the far pointer width - REX.W - is the same for all far lines with the same keyword).",
    note="Sweep by evaluation (native_decide axiom). 'short' on call/xbegin (no rel8 form exists) is not judged.",
    technique="Lean 4 reference decoder; finite-domain theorem (native_decide) + two's-complement lemmas for all displacements; differential run with decoding oracle",
    design="8/C05"),
@@ -230,7 +230,7 @@ CLAIMS = {
         "bytes of room at ANY position - also far beyond the current length after asm_set_offset - and keeps every earlier byte. Tie + oracle: internal instance vs "
         "40000-byte caller buffer at offsets -21..+21 around each growth point in plain/fitting(7,9,13,16)/counting mode and genuinely "
         "long programs; every growth is forced to MOVE the mapping; code behind the growth point is executed; fresh allocations are filled with "
-        "ones (malloc returns indeterminate bytes).",
+        "ones (malloc returns indeterminate bytes); the recorded buffer length is compared with the model's after every history (op B), and when it differs programs of 120 kB / 420 kB / 1.2 MB are assembled to find the growth that fails.",
    note="mremap is modelled as 'same prefix, 6000 more zero bytes' (assumed OS behaviour); executability after growth is observed by "
         "running code, not proved.",
    technique="Lean 4 simulation/layout proof + differential correspondence with forced mremap relocation",
@@ -244,7 +244,7 @@ CLAIMS = {
         "do-while loop needs at most two rounds; c<2 disables fitting; second_assembly_same (AL.Lemmas.Reassemble): the fitting loop assembles a "
         "padded instruction a second time from the record the first assembly left behind (the ib slot marks it) - for EVERY record the second "
         "assembly emits the same bytes. Tie + oracle: all c in 2..24 x every position mod c x every "
-        "instruction length 1..14 the library emits, random programs, fitting toggled between calls.",
+        "instruction length 1..14 the library emits, random programs, fitting toggled between calls; library-managed buffers with chunk sizes at and above the current buffer length (boundaries in memory the call itself has to grow into).",
    note="That each NOP-table entry decodes to exactly one x86 NOP is the kernel-checked theorem C01.nop_table_decodes (reference decoder "
         "AL.Spec.X86); the check also compares the entries with the Intel-recommended multi-byte NOP sequences.",
    technique="Lean 4 proof (modular arithmetic + layout induction) + differential correspondence and layout oracle",
@@ -267,7 +267,7 @@ CLAIMS = {
         "settings) give, after asm_set_offset(k), the same return value, offset, count and code bytes; a failed call leaves offset and "
         "configuration unchanged; a counting call restores mode and chunk size; the global index tables are a function of the constant "
         "tables. Tie + oracle: every history of up to 2 (thorough 3) calls from a 24-call alphabet and random longer ones vs a fresh "
-        "instance over a different fill; the twin's calls are also run alone in a NEW process (state kept outside the instances, e.g. errno or a static, hits an in-process twin alike).",
+        "instance over a different fill; a growth refused by the OS in front of the call (fault harness, growthafter); the twin's calls are also run alone in a NEW process (state kept outside the instances, e.g. errno or a static, hits an in-process twin alike).",
    note="Instances on caller buffers of equal length (internal instances of different current size are covered by C08). The model has "
         "no shared mutable state besides the index tables; that the C code has none either is the T5 inventory (nm).",
    technique="Lean 4 proof (congruence of the run under configuration-equivalence, induction over histories) + differential correspondence",
@@ -290,7 +290,7 @@ CLAIMS = {
         "sequence of the five setters with ANY argument value the stored option byte is exactly the encoding of what the documented table "
         "(AL.Spec.Api, written from the man page) yields from SMART/NASM/NASM; a setter on one instance changes no other instance. "
         "Tie: all setter sequences up to length 2 (quick) / 3 (thorough) x values 0..3 plus random longer ones on one or two live "
-        "instances, observed through four probe lines that are checked to discriminate all 12 states on the implementation; lines sensitive to several dimensions at once (padded/short/decimal immediates next to base-less or stack-pointer-index operands) under all 12 states against the whole per-line model, with the implementation-only oracle that a line without mov r64, imm assembles the same under the three mov-immediate settings.",
+        "instances, plus every sequence of three calls per dimension (thorough: a third of those of four), observed through four probe lines that are checked to discriminate all 12 states on the implementation; lines sensitive to several dimensions at once (padded/short/decimal immediates next to base-less or stack-pointer-index operands) under all 12 states against the whole per-line model, with the implementation-only oracle that a line without mov r64, imm assembles the same under the three mov-immediate settings.",
    note="The option byte is observed only through assembled probe lines; the probes' discrimination is re-checked on every run.",
    technique="Lean 4 refinement proof (12 states x 20 transitions by kernel evaluation, induction over call lists) + differential correspondence",
    design="8/C12"),
